@@ -127,6 +127,9 @@ func c16Timestamp(c *Ctx, p *Prog, m *Model) {
 					return "!localoff", true
 				}
 			}
+			if cal := calleeOf(x); cal != nil && flagPredicate(p, cal, localFlag) {
+				return "!localoff", true
+			}
 		case *ssa.Extract:
 			if lk, ok := x.Tuple.(*ssa.Lookup); ok && x.Index == 1 {
 				if g, ok := globalLoad(lk.X); ok && g == layoutsG {
